@@ -252,6 +252,19 @@ Theorem ft_equals_defining_sum : forall (a : @axis R) (sh : bool) (sg : R) (x : 
 Proof. exact (ft_is_defining_sum cis_true cis_true_add cis_true_0 cis_true_2 cis_true_prim PI (sqrt (2 * PI))). Qed.
 Print Assumptions ft_equals_defining_sum.
 
+(* F3': the same for the half-complex transform of a real line (all-shifted, sign '-'): the kept
+   entries k = 0..n/2, even and odd n, with the half-complex branch of the kernel frequencies. *)
+Theorem ft_halfcomplex_equals_defining_sum : forall (a : @axis R) (x : list (@cx R)) (k : nat),
+  (2 <= a_n a)%nat -> stride a <> 0 -> length x = a_n a -> Forall (fun z => snd z = 0) x ->
+  (k < a_n a / 2 + 1)%nat ->
+  nth k (ft_forward PI (sqrt (2 * PI)) cis_true (mk_ft [a] [0%nat] [true] (-1) true) x) c0 =
+  cscal (kernel PI (sqrt (2 * PI)) cis_true (stride a) (freq (a_n a) (a_n a / 2 + 1) true k))
+        (rsum c0 cadd (fun j => cmul (nth j x c0)
+                  (cis_true (-1 * (a_min a + INR j * stride a) * coord (recip_axis 1 a (Some true) true) k)))
+              (a_n a)).
+Proof. exact (ft_is_defining_sum_hc cis_true cis_true_add cis_true_0 cis_true_2 cis_true_prim PI (sqrt (2 * PI))). Qed.
+Print Assumptions ft_halfcomplex_equals_defining_sum.
+
 (* ------------------------------------------------------------------ *)
 (* W3: the Haar wavelet with periodic (periodization) extension, as PyWavelets computes it and
    WaveletTransform flattens it (model C18/ModelH.v, compared with the implementation for
